@@ -161,7 +161,7 @@ def run_numrange(ctx, quick):
                         continue
                     kk = (j // step) % 4
                     val = (np.exp(0.5j * np.pi * kk) * z[j]).real
-                    if abs(val - sup[kk]) > 1e-8:
+                    if core.gt(abs(val - sup[kk]), 1e-8):
                         ctx.violation('C20:get_matrix_numerical_range:support', 'the point returned for direction theta=%d*pi/2 (num_point=%d) gives Re(e^{i theta} z)=%.9f, the support function is %s'
                                       % (kk, num, val, sup[kk]), data)
                 # every returned point must lie in W(A): below the support function in the four exact directions
